@@ -115,6 +115,10 @@ def run_c13(ck, fb, fbd):
             break
     ok = first is not None and "this" in first and other["n"] in first and "==" in first
     (ck.ok if ok else lambda r_, w, t: ck.violate(r_, w, t, "C13.assign:self"))("C13.assign", asg.where, "operator= begins with the self-assignment test (%s)" % first)
+    # the anonymise step itself (clear_all_props -> clear_props<K>): a property of the target that is still held by a handle
+    # must leave the persistent set *and* lose its flag, or it can never be re-persisted (shared with C14)
+    clear_props_rule(ck, fb, "C13.assign")
+    selfguard_rule(ck, fb)
     calls = [(b, i, x) for b, i, x in asg.nodes(("call",))]
     order = [x.get("pn", "").split("::")[-1] for b, i, x in sorted(calls, key=lambda z: (-z[0], z[1])) if x.get("cc") == RM]
     pos = {nm: k for k, nm in reversed(list(enumerate(order)))}
@@ -176,7 +180,120 @@ def run_c13(ck, fb, fbd):
             (ck.ok if not reads else lambda r_, w, t: ck.violate(r_, w, t, "C13.storage:tracker"))("C13.storage", f.where, "%s never reads the source's tracked set" % ("Tracker copy constructor" if f.d.get("copy_ctor") else "Tracker copy assignment"))
 
 
+ENTITY_WORDS = {"vertex": "Vertex", "edge": "Edge", "halfedge": "HalfEdge", "face": "Face", "halfface": "HalfFace", "cell": "Cell", "mesh": "Mesh"}
+
+
+def tag_rule(ck, fb):
+    """the entity-named convenience members of ResourceManager forward with the entity tag their name says"""
+    import re
+    ck.rule("C14.tag", "every entity-named convenience member of ResourceManager (request_K_property, create_*_K_property, get_K_property, K_property_exists, n_K_props, K_props_begin/end, clear_K_props) forwards with Entity::K and nothing else")
+    n = 0
+    seen = set()
+    for f in fb.by_cls.get(RM, []):
+        if not f.has_cfg:
+            continue
+        m = re.search(r"(?:^|_)(halfedge|halfface|vertex|edge|face|cell|mesh)_(?:property|props)", f.name)
+        if not m:
+            continue
+        tags = set()
+        for b, i, x in f.nodes(("call",)):
+            for t in x.get("ta") or []:
+                if isinstance(t, str) and "Entity::" in t:
+                    tags.add(t.split("Entity::")[-1])
+        key = (f.name, f.where)
+        if key in seen:
+            continue
+        seen.add(key)
+        n += 1
+        want = ENTITY_WORDS[m.group(1)]
+        (ck.ok if tags == {want} else lambda r_, w, t: ck.violate(r_, w, t, "C14.tag:%s" % f.name))("C14.tag", f.where, "%s forwards with Entity::%s (found %s)" % (f.name, want, sorted(tags)))
+    ck.floor("entity_named_wrappers", n, 68)
+
+
+def flag_writer_rule(ck, fb):
+    """the storage's persistent_/shared_ flags are written by their own setter (and constructors) only: any other writer
+    changes a flag without the persistent set of the ResourceManager following"""
+    n = 0
+    for f in fb.repo_fns():
+        if not f.has_cfg:
+            continue
+        for b, i, x in f.nodes(("asg", "minit")):
+            fld = None
+            if x.get("k") == "asg":
+                l = unwrap(f.resolve(x["l"]))
+                if isinstance(l, dict) and l.get("k") == "mem" and l.get("f") in ("persistent_", "shared_") and PSB.split("::")[-1] in (l.get("o") or l.get("t") or PSB):
+                    fld = l["f"]
+            elif x.get("f") in ("persistent_", "shared_") and f.cls == PSB:
+                fld = None  # constructors initialise
+            if fld is None:
+                continue
+            if f.cls != PSB and not (f.cls or "").startswith(PSB):
+                # another class with members of the same name is not the storage
+                if not (f.cls or "").endswith("PropertyStorageBase"):
+                    continue
+            n += 1
+            want = "set_" + fld[:-1]
+            ok = f.name == want or f.d.get("kind") == "ctor"
+            (ck.ok if ok else lambda r_, w, t: ck.violate(r_, w, t, "C14.flagsync:writer:%s:%s" % (f.name, fld)))("C14.flagsync", f.loc(x), "PropertyStorageBase::%s is assigned in %s (only %s and the constructors may)" % (fld, f.name, want))
+    ck.floor("storage_flag_writers", n, 2)
+
+
+def selfguard_rule(ck, fb):
+    """every user-provided copy assignment of a class of the mesh hierarchy starts with the self-assignment test"""
+    n = 0
+    seen = set()
+    for f in fb.repo_fns():
+        if not (f.d.get("copy_assign") and f.has_cfg) or f.d.get("defaulted") or f.where in seen:
+            continue
+        if not f.cls or not any(k in f.cls for k in ("ResourceManager", "GeometryKernel", "TopologyKernel")):
+            continue
+        seen.add(f.where)
+        n += 1
+        other = f.d["params"][0]["n"]
+        first = None
+        for b in sorted(f.reach(), reverse=True):
+            t = f.term(b)
+            if t and t.get("cond"):
+                first = (b, estr(f.resolve(t["cond"])))
+                break
+        ok = first is not None and "this" in first[1] and other in first[1] and "==" in first[1]
+        if ok:
+            # nothing happens before the test: no call / assignment element precedes it in the entry path
+            pre = [x for b, i, x in f.tops() if f.dominates((b, i), (first[0], 0)) and b != first[0] and x.get("k") in ("call", "asg")]
+            ok = not pre
+        (ck.ok if ok else lambda r_, w, t: ck.violate(r_, w, t, "C13.assign:self:%s" % f.cls))("C13.assign", f.where, "%s::operator=(const&) begins with the self-assignment test (%s)" % (f.cls.split("::")[-1], first[1] if first else None))
+    ck.floor("user_provided_copy_assignments", n, 2)
+
+
 # ------------------------------------------------------------------------------------------- C14
+def clear_props_rule(ck, fb, rule="C14.flagsync"):
+    """clear_props (the anonymise step of clear() and of ResourceManager::operator=) un-persists before clearing the set"""
+    insts = lambda name: [f for f in fb.by_cls.get(RM, []) if f.name == name and f.has_cfg and f.d.get("inst")]
+    fs3 = insts("clear_props")
+    ck.floor("clear_props_instantiations", len(fs3), 7)
+    bad = 0
+    for f in fs3:
+        clears = [(b, i, x) for b, i, x in f.nodes(("call",)) if x.get("pn", "").split("::")[-1] == "clear" and any(isinstance(y, dict) and y.get("f") == "persistent_props_" for y in walk(f.resolve(x.get("r"))))]
+        unp = [(b, i, x) for b, i, x in f.nodes(("call",)) if x.get("pn", "") == PSB + "::set_persistent" and unwrap(f.resolve(x["a"][0])).get("v") is False]
+        uns = [(b, i, x) for b, i, x in f.nodes(("call",)) if x.get("pn", "") == PSB + "::set_shared" and unwrap(f.resolve(x["a"][0])).get("v") is False]
+        ok = bool(clears) and bool(unp) and bool(uns)
+        if ok:
+            # the un-persist loop ranges over the persistent set and precedes the clear; the un-share loop over the tracker
+            loops = f.loops()
+            rng = {}
+            for hdr, body, backs in loops:
+                t = f.term(hdr)
+                if t and t.get("range") is not None:
+                    rng[hdr] = (estr(f.resolve(t["range"])), body)
+            ok1 = any("persistent_props_" in r and any(b in body for b, i, x in unp) for r, body in rng.values())
+            ok2 = any("storage_tracker" in r and any(b in body for b, i, x in uns) for r, body in rng.values())
+            ok3 = all(not f.dominates((cb, ci), (b, i)) for cb, ci, cx in clears for b, i, x in unp)
+            ok = ok1 and ok2 and ok3
+        if not ok:
+            bad += 1
+    (ck.ok if bad == 0 else lambda r_, w_, t: ck.violate(r_, w_, t, "%s:clear_props" % rule))(rule, fs3[0].where, "clear_props (%d instantiations) un-persists every member of the persistent set before clearing it and un-shares every tracked storage" % len(fs3))
+
+
 def run_c14(ck, fb, fbd):
     ck.rule("C14.find", "internal_find_property rejects the empty name before looking and matches only storages that are shared, carry the requested name and the requested internal type name")
     ck.rule("C14.create", "create_shared/create_persistent_property create only when the lookup failed and return {} otherwise; request_property returns the found property before creating; anonymous requests create private (unshared) storages")
@@ -316,29 +433,9 @@ def run_c14(ck, fb, fbd):
                         if not (isinstance(a, dict) and a.get("k") == "var" and a.get("s") == "param" and a.get("t") == "bool"):
                             bad += 1
     (ck.ok if bad == 0 else lambda r_, w_, t: ck.violate(r_, w_, t, "C14.flagsync:set_persistent"))("C14.flagsync", fs2[0].where, "set_persistent: insert/erase on the persistent set is always followed by storage->set_persistent(_enable)")
-    fs3 = insts("clear_props")
-    ck.floor("clear_props_instantiations", len(fs3), 7)
-    bad = 0
-    for f in fs3:
-        clears = [(b, i, x) for b, i, x in f.nodes(("call",)) if x.get("pn", "").split("::")[-1] == "clear" and any(isinstance(y, dict) and y.get("f") == "persistent_props_" for y in walk(f.resolve(x.get("r"))))]
-        unp = [(b, i, x) for b, i, x in f.nodes(("call",)) if x.get("pn", "") == PSB + "::set_persistent" and unwrap(f.resolve(x["a"][0])).get("v") is False]
-        uns = [(b, i, x) for b, i, x in f.nodes(("call",)) if x.get("pn", "") == PSB + "::set_shared" and unwrap(f.resolve(x["a"][0])).get("v") is False]
-        ok = bool(clears) and bool(unp) and bool(uns)
-        if ok:
-            # the un-persist loop ranges over the persistent set and precedes the clear; the un-share loop over the tracker
-            loops = f.loops()
-            rng = {}
-            for hdr, body, backs in loops:
-                t = f.term(hdr)
-                if t and t.get("range") is not None:
-                    rng[hdr] = (estr(f.resolve(t["range"])), body)
-            ok1 = any("persistent_props_" in r and any(b in body for b, i, x in unp) for r, body in rng.values())
-            ok2 = any("storage_tracker" in r and any(b in body for b, i, x in uns) for r, body in rng.values())
-            ok3 = all(not f.dominates((cb, ci), (b, i)) for cb, ci, cx in clears for b, i, x in unp)
-            ok = ok1 and ok2 and ok3
-        if not ok:
-            bad += 1
-    (ck.ok if bad == 0 else lambda r_, w_, t: ck.violate(r_, w_, t, "C14.flagsync:clear_props"))("C14.flagsync", fs3[0].where, "clear_props (%d instantiations) un-persists every member of the persistent set before clearing it and un-shares every tracked storage" % len(fs3))
+    clear_props_rule(ck, fb)
+    flag_writer_rule(ck, fb)
+    tag_rule(ck, fb)
     # ---- tracking protocol
     ntr = 0
     writers = {}
